@@ -324,6 +324,68 @@ for nf in ([1, 2, 3] if Q else [1, 2, 3, 4, 5]):
                               {"keys": keys, "numfreq": nf, "n": n, "frequencies_shape": shape})
             os.remove(fn)
 
+# ---- two (and then three) data-backed scatterers alive together: the documented customisation of ONE object's frequency
+#      interpolation (obj.interp_freq_kwargs edited in place) must not change how the OTHERS interpolate
+for t_ in range(3 if Q else 20):
+    n = int(rng.integers(2, 6))
+    fs_ = np.sort(rng.uniform(1e6, 10e6, 3))
+    mk_ = lambda: {k: rng.standard_normal((3, n, n)) + 1j * rng.standard_normal((3, n, n)) for k in ("LL", "LT", "TL", "TT")}
+    dA, dB, dC = mk_(), mk_(), mk_()
+    oA = scat.ScatFromData.from_dict(fs_, dA)
+    oB = scat.ScatFromData.from_dict(fs_, dB) if t_ % 2 == 0 else scat.ScatFromData(fs_, *(dB[k] for k in ("LL", "LT", "TL", "TT")))
+    if t_ % 3 == 0:
+        oA.interp_freq_kwargs["kind"] = "nearest"
+    elif t_ % 3 == 1:
+        oA.interp_freq_kwargs.update(kind="nearest")
+    else:
+        oA.interp_freq_kwargs["fill_value"] = 0.0
+        oA.interp_freq_kwargs["bounds_error"] = False
+    oC = scat.ScatFromData.from_dict(fs_, dC)           # created after the edit
+    fr = float(0.3 * fs_[0] + 0.7 * fs_[1]) if t_ % 3 != 2 else float(fs_[2] * 1.1)
+    inc_g, out_g = scat.make_angles_grid(n)
+    evaluations += 2
+    nontrivial.add(("two-objects", t_))
+    chk.count(two_data_scatterers="one object's interp_freq_kwargs edited in place")
+    for nm_, o_, d_ in (("alive at the time of the edit", oB, dB), ("created after the edit", oC, dC)):
+        with warnings.catch_warnings():
+            warnings.simplefilter("ignore")
+            res = o_(inc_g, out_g, fr)
+        lo_, hi_ = (0, 1) if t_ % 3 != 2 else (1, 2)
+        w_ = (fr - fs_[lo_]) / (fs_[hi_] - fs_[lo_])
+        bad_ = [k for k in d_ if not np.allclose(res[k], d_[k][lo_] * (1 - w_) + d_[k][hi_] * w_, rtol=0, atol=1e-9 * np.max(np.abs(d_[k])))]
+        if bad_:
+            chk.violation("data:two-objects", f"a ScatFromData object ({nm_}) no longer interpolates linearly in frequency after ANOTHER object's "
+                          "interp_freq_kwargs was edited in place", {"n": n, "frequencies": fs_, "frequency": fr, "keys": bad_,
+                                                                    "edit": ["['kind'] = 'nearest'", ".update(kind='nearest')", "['fill_value'] = 0.0"][t_ % 3]})
+            break
+
+# ---- keys of mixed data types (a real-valued LL next to complex LT / TL / TT, as a data file may hold): the multi-frequency
+#      matrices are, key by key, the single-frequency ones (imaginary parts included), for every requested subset
+for t_ in range(3 if Q else 20):
+    n = int(rng.integers(2, 6))
+    fs_ = np.sort(rng.uniform(1e6, 10e6, 2))
+    real_keys = [("LL",), ("LL", "LT"), ("LT",)][t_ % 3]
+    dM = {k: (rng.standard_normal((2, n, n)) if k in real_keys else rng.standard_normal((2, n, n)) + 1j * rng.standard_normal((2, n, n)))
+          for k in ("LL", "LT", "TL", "TT")}
+    oM = scat.ScatFromData.from_dict(fs_, dM)
+    fq_ = np.array([float(fs_[0]), float(0.5 * (fs_[0] + fs_[1])), float(fs_[1])])
+    for tc_ in (None, {"LL", "TT"}, {"LT", "TL"}, {"LT", "TT"}):
+        with warnings.catch_warnings():
+            warnings.simplefilter("ignore")
+            multi = oM.as_multi_freq_matrices(fq_, n) if tc_ is None else oM.as_multi_freq_matrices(fq_, n, to_compute=tc_)
+            singles = [oM.as_single_freq_matrices(float(f_), n) for f_ in fq_]
+        evaluations += 1
+        nontrivial.add(("mixed-dtypes", t_, None if tc_ is None else tuple(sorted(tc_))))
+        chk.count(mixed_dtype_keys="real " + "+".join(real_keys))
+        bad_ = [(k, fi) for k in (tc_ or dM) for fi in range(3)
+                if k not in multi or not np.allclose(np.asarray(multi[k][fi]), np.asarray(singles[fi][k]), rtol=0, atol=1e-12 * np.max(np.abs(dM[k])))]
+        if bad_:
+            k, fi = bad_[0]
+            chk.violation("layout:multi:mixed-dtypes", "as_multi_freq_matrices[f] differs from as_single_freq_matrices(f) for a scatterer whose keys have mixed data types",
+                          {"n": n, "real_keys": list(real_keys), "to_compute": None if tc_ is None else sorted(tc_), "key": k, "freq_index": fi,
+                           "multi": None if k not in multi else np.asarray(multi[k][fi]), "single": np.asarray(singles[fi][k])})
+            break
+
 chk.finish(
     evaluations=evaluations,
     distinct_nontrivial=len(nontrivial),
